@@ -8,7 +8,7 @@ use serde_json::json;
 use ta::errors::TaError;
 use ta::{Close, DataItem, High, Low, Open, Volume};
 
-pub const RULE: &str = "EXHAUSTIVE: all 10^5 five-tuples over the lattice {-inf,-2,-1,-0.0,0.0,1,2,3,+inf,NaN} for (open,high,low,close,volume) x all 32 subsets of the five setters (in canonical order); for complete subsets on the 10^3-tuple sub-lattice {-1,0.0,1,2,NaN,...} additionally all 120 setter orders, and programs with repeated setters (the last value must win); every sequence of setter calls of length <= 6 (8 thorough) over the five setters (repeated calls, proper subsets called many times), with a consistent and an inconsistent value assignment. RANDOM: 2*10^6 (quick) / 4*10^7 (thorough) finite tuples (consistent and inconsistent). Oracle (IEEE comparisons evaluated by the harness): Incomplete iff some setter was never called; else Invalid iff not (l<=o && l<=c && l<=h && h>=o && h>=c && v>=0); else Ok and the five getters return the last value set bit-exactly, clone == item; the five price traits called through a generic bound must return the same bits (observed directly, independent of any indicator). Every (tuple, subset, order) is a distinct case by construction; non-trivial = all of them (the rule has no trivial cases: each exercises a different branch combination).";
+pub const RULE: &str = "EXHAUSTIVE: all 10^5 five-tuples over the lattice {-inf,-2,-1,-0.0,0.0,1,2,3,+inf,NaN} for (open,high,low,close,volume) x all 32 subsets of the five setters (in canonical order); for complete subsets on the 10^3-tuple sub-lattice {-1,0.0,1,2,NaN,...} additionally all 120 setter orders, and programs with repeated setters (the last value must win; every field first set to each of the ten lattice values); every sequence of setter calls of length <= 6 (8 thorough) over the five setters (repeated calls, proper subsets called many times), with a consistent and an inconsistent value assignment. RANDOM: 2*10^6 (quick) / 4*10^7 (thorough) finite tuples (consistent and inconsistent). Oracle (IEEE comparisons evaluated by the harness): Incomplete iff some setter was never called; else Invalid iff not (l<=o && l<=c && l<=h && h>=o && h>=c && v>=0); else Ok and the five getters return the last value set bit-exactly, clone == item, an existing item assigned with clone_from == item; the five price traits called through a generic bound must return the same bits (observed directly, independent of any indicator). Every (tuple, subset, order) is a distinct case by construction; non-trivial = all of them (the rule has no trivial cases: each exercises a different branch combination).";
 
 pub const LATTICE: [f64; 10] = [f64::NEG_INFINITY, -2.0, -1.0, -0.0, 0.0, 1.0, 2.0, 3.0, f64::INFINITY, f64::NAN];
 
@@ -96,6 +96,13 @@ pub fn check_program(rep: &mut Report, prog: &[(usize, f64)], tag: &str) {
                 if item.clone() != item {
                     fail(rep, "clone_ne", format!("builder program {:?}: clone() != item", prog));
                 }
+                // Clone::clone_from into an existing, different item is a clone too
+                let mut other = DataItem::builder().open(5.0).high(6.5).low(4.25).close(5.5).volume(7.75).build().expect("harness: reference item");
+                other.clone_from(&item);
+                let h = [other.open(), other.high(), other.low(), other.close(), other.volume()];
+                if other != item || (0..5).any(|i| h[i].to_bits() != g[i].to_bits()) {
+                    fail(rep, "clone_from_ne", format!("builder program {:?}: an item assigned with clone_from reads {:?}, the source {:?}", prog, h, g));
+                }
             }
         }
     }
@@ -151,6 +158,16 @@ fn run_lattice(ctx: &Ctx) -> Report {
                         let mut prog: Vec<(usize, f64)> = (0..5).map(|i| (i, LATTICE[(i * 3 + c) % 10])).collect();
                         prog.extend((0..5).rev().map(|i| (i, vals[i])));
                         check_program(rep, &prog, "repeated_setters");
+                        // one field first set to each lattice value, then the whole tuple: only the last call counts,
+                        // whatever was passed before (a rejected value must not stick)
+                        for i in 0..5 {
+                            for gval in LATTICE.iter() {
+                                let mut prog: Vec<(usize, f64)> = vec![(i, *gval)];
+                                prog.extend((0..5).map(|q| (q, vals[q])));
+                                check_program(rep, &prog, "repeated_setters");
+                                rep.distinct_by_construction += 1;
+                            }
+                        }
                         // repeated setter on an incomplete program
                         let prog2 = vec![(0, vals[0]), (0, vals[1]), (3, vals[3]), (3, vals[2])];
                         check_program(rep, &prog2, "repeated_setters");
